@@ -593,8 +593,11 @@ func init() {
 	core.RegisterExtra("C01", func(c *core.Ctx) {
 		c.Correspondence("program stage: deterministic boundary and close programs; per session and direction the decoded wire = the Lean session model's prediction (tcps-*), reads accepted by the model's Read")
 		cases := append(c01pBoundaryCases(), c01pCloseCases()...)
+		t0 := time.Now()
 		core.Parallel(len(cases), 6, func(i int) { c01pRun(c, cases[i]) })
+		t1 := time.Now()
 		bgClose.Wait(30 * time.Second)
+		c.Note("program stage: %d deterministic programs in %.1f s (+ %.1f s closing the worlds)", len(cases), t1.Sub(t0).Seconds(), time.Since(t1).Seconds())
 	})
 	core.RegisterReplay("C01", func(c *core.Ctx, raw json.RawMessage) bool {
 		var k c01pCase
